@@ -1045,6 +1045,32 @@ func callBuiltin(caller *frame, callpos token.Pos, fn *ssa.Builtin, args []value
 		chanClose(caller, args[0])
 		return nil
 
+	case "clear": // clear(map) / clear(slice)
+		switch m := args[0].(type) {
+		case *omap:
+			if m != nil {
+				m.ents = nil
+				m.idx = map[string]*oentry{}
+				m.nsym = 0
+			}
+		case []value:
+			var et types.Type
+			if sig, ok := fn.Type().(*types.Signature); ok && sig.Params().Len() > 0 {
+				if sl, ok := sig.Params().At(0).Type().Underlying().(*types.Slice); ok {
+					et = sl.Elem()
+				}
+			}
+			if et == nil {
+				panic(unsupported{"clear of a slice of unknown element type"})
+			}
+			for k := range m {
+				m[k] = zero(et)
+			}
+		default:
+			panic(fmt.Sprintf("illegal clear argument: %T", m))
+		}
+		return nil
+
 	case "delete": // delete(map[K]value, K)
 		switch m := args[0].(type) {
 		case *omap:
